@@ -5,7 +5,7 @@
    GoNames as inputs. The driver runs these models against the identifiers, struct members and `{` counts found in the
    sources the working-tree plugin emits (GENID / GENFIELD / GENSIZEBR lines). That the emitted packages compile and
    behave is decided by running the Go toolchain on every request of the run, not by proof. *)
-From CP Require Import Schema Extra KeyBytes GenNames GenTemplates GenNamesProofs GenTemplatesProofs.
+From CP Require Import Schema Extra KeyBytes GenNames GenTemplates GenTemplates2 GenNamesProofs GenTemplatesProofs GenTemplates2Proofs.
 Local Open Scope N_scope.
 
 (* md_X, fastReflection_X, fastReflection_X_messageType, _fastReflection_X_messageType, _X_<n>_list, _X_<n>_map and fd_X_f
@@ -49,6 +49,55 @@ Theorem templates_total : forall fk s o, valid_combo fk s o = true ->
   exists toks, size_field fk s o = Some toks /\ balanced toks = true.
 Proof. exact GenTemplatesProofs.templates_total. Qed.
 
+(* the same for the other per-field templates (Model/GenTemplates2.v: has.go, clear.go, get.go, set.go, mutable.go,
+   new_field.go, range.go, which_oneof.go, proto_marshal.go incl. map entries and nested messages, proto_unmarshal.go incl.
+   packed/unpacked lists and map entries), on every combination of the supported subset (no groups, no proto3 optional):
+   each is defined and its `{` / `}` lines are balanced. The driver compares, per generated method of every emitted message,
+   the number of lines ending in `{` with the model's (GENBR lines). One theorem per template: *)
+Theorem has_template_total : forall fk s o, valid_combo2 fk s o = true ->
+  exists toks, field_toks THas fk s o = Some toks /\ balanced toks = true.
+Proof. exact (GenTemplates2Proofs.templates_total2 THas). Qed.
+
+Theorem clear_template_total : forall fk s o, valid_combo2 fk s o = true ->
+  exists toks, field_toks TClear fk s o = Some toks /\ balanced toks = true.
+Proof. exact (GenTemplates2Proofs.templates_total2 TClear). Qed.
+
+Theorem get_template_total : forall fk s o, valid_combo2 fk s o = true ->
+  exists toks, field_toks TGet fk s o = Some toks /\ balanced toks = true.
+Proof. exact (GenTemplates2Proofs.templates_total2 TGet). Qed.
+
+Theorem set_template_total : forall fk s o, valid_combo2 fk s o = true ->
+  exists toks, field_toks TSet fk s o = Some toks /\ balanced toks = true.
+Proof. exact (GenTemplates2Proofs.templates_total2 TSet). Qed.
+
+Theorem mutable_template_total : forall fk s o, valid_combo2 fk s o = true ->
+  exists toks, field_toks TMutable fk s o = Some toks /\ balanced toks = true.
+Proof. exact (GenTemplates2Proofs.templates_total2 TMutable). Qed.
+
+Theorem new_field_template_total : forall fk s o, valid_combo2 fk s o = true ->
+  exists toks, field_toks TNewField fk s o = Some toks /\ balanced toks = true.
+Proof. exact (GenTemplates2Proofs.templates_total2 TNewField). Qed.
+
+Theorem range_template_total : forall fk s o, valid_combo2 fk s o = true ->
+  exists toks, field_toks TRange fk s o = Some toks /\ balanced toks = true.
+Proof. exact (GenTemplates2Proofs.templates_total2 TRange). Qed.
+
+Theorem which_oneof_template_total : forall fk s o, valid_combo2 fk s o = true ->
+  exists toks, field_toks TWhichOneof fk s o = Some toks /\ balanced toks = true.
+Proof. exact (GenTemplates2Proofs.templates_total2 TWhichOneof). Qed.
+
+Theorem marshal_template_total : forall fk s o, valid_combo2 fk s o = true ->
+  exists toks, field_toks TMarshal fk s o = Some toks /\ balanced toks = true.
+Proof. exact (GenTemplates2Proofs.templates_total2 TMarshal). Qed.
+
+Theorem unmarshal_template_total : forall fk s o, valid_combo2 fk s o = true ->
+  exists toks, field_toks TUnmarshal fk s o = Some toks /\ balanced toks = true.
+Proof. exact (GenTemplates2Proofs.templates_total2 TUnmarshal). Qed.
+
+(* and every template refuses groups (outside the supported subset) *)
+Theorem templates_refuse_groups : forall t s o, field_toks t FGroup s o = None.
+Proof. exact GenTemplates2Proofs.group_refused2. Qed.
+
 (* the key bytes printed at generation time are the protobuf tag, for every field number (re-export of C02) *)
 Theorem key_bytes_are_tag : forall num wt, 1 <= num -> num < 536870912 -> wt < 8 -> key_bytes num wt = tag num wt.
 Proof. exact KeyBytes.key_bytes_tag. Qed.
@@ -60,3 +109,10 @@ Example idents_example :
   rewrite_field ["T"; "y"; "p"; "e"] = ["T"; "y"; "p"; "e"; "_"] /\ rewrite_field ["T"; "y"; "p"; "e"; "_"] = ["T"; "y"; "p"; "e"; "_"] /\
   names_wf d9_schema = true /\ fd_safe d9_schema = false.
 Proof. vm_compute. repeat split; reflexivity. Qed.
+
+Example templates_example :
+  field_toks TMarshal (FK KSint64) SSingular true = Some [] /\
+  field_toks TMarshal (FK KSint64) SSingular false = Some [LB; RB] /\
+  field_toks TUnmarshal (FK KBool) SPacked false <> None /\
+  method_opens THas [(FK KInt32, SSingular, None); (FK KString, SSingular, Some 0); (FMsg, SSingular, Some 0)] = Some 10.
+Proof. vm_compute. repeat split; try reflexivity. discriminate. Qed.
